@@ -154,6 +154,59 @@ def _agg(path, variant, vidx, ops):
     return {"k": "agg", "ak": "adt", "path": path, "variant": variant, "vidx": vidx, "fields": ["0"] if ops else [], "ops": ops}
 
 
+def _thread_bool(F, t, off, boff, nH, sw):
+    """`if helper(..) { A } else { B }` with a bool-returning helper: a return site that assigns a constant `true`/`false` goes straight to A / B"""
+    dest = t["dest"]
+    ret, cont, line = off, boff + nH, t.get("line")
+    arms = {str(v): tg for v, tg in sw["targets"]}
+
+    def succ_of(term):
+        return term["t"] if term["k"] == "goto" else term.get("target") if term["k"] == "drop" else None
+
+    def chain_to_cont(first):
+        chain, cur = [], first
+        while cur != cont:
+            if cur is None or not (boff <= cur < boff + nH) or len(chain) > 8:
+                return None
+            blk = F["blocks"][cur]
+            if not blk["term"] or blk["term"]["k"] not in ("goto", "drop") or any(s_["k"] == "assign" and s_["place"]["l"] == ret for s_ in blk["stmts"]):
+                return None
+            chain.append(cur)
+            cur = succ_of(blk["term"])
+        return chain
+    for k in range(boff, boff + nH):
+        blk = F["blocks"][k]
+        term = blk["term"]
+        if not term or term["k"] not in ("goto", "drop"):
+            continue
+        last = None
+        for s_ in blk["stmts"]:
+            if s_["k"] == "assign" and s_["place"]["l"] == ret and not s_["place"]["p"]:
+                last = s_
+        if last is None or last["rv"].get("k") != "use" or last["rv"]["op"].get("k") != "const" or last["rv"]["op"].get("ty") != "bool" or "int" not in last["rv"]["op"]:
+            continue
+        v = str(int(last["rv"]["op"]["int"]))
+        arm = arms.get(v, sw.get("otherwise"))
+        chain = chain_to_cont(succ_of(term))
+        if arm is None or chain is None:
+            continue
+        F["blocks"].append({"cleanup": False, "stmts": [{"k": "assign", "place": dest, "rv": {"k": "use", "op": dict(last["rv"]["op"])}, "line": line, "exp": True}],
+                            "term": {"k": "goto", "t": arm, "line": line, "exp": True}, "inlined_from": "bool-thread"})
+        nxt = len(F["blocks"]) - 1
+        for c in reversed(chain):
+            cp = copy.deepcopy(F["blocks"][c])
+            if cp["term"]["k"] == "goto":
+                cp["term"]["t"] = nxt
+            else:
+                cp["term"]["target"] = nxt
+            F["blocks"].append(cp)
+            nxt = len(F["blocks"]) - 1
+        if term["k"] == "goto":
+            term["t"] = nxt
+        else:
+            term["target"] = nxt
+
+
 def _thread_try(F, t, off, boff, nH):
     """`helper(..)?` — keep the helper's return paths apart.  After splicing, every `return` of the helper jumps to one continuation block where the
     caller evaluates `Try::branch(result)` and switches on it; an analysis that is not path-sensitive would then let the helper's `return Err(..)`
@@ -165,6 +218,10 @@ def _thread_try(F, t, off, boff, nH):
         return
     T = F["blocks"][tgt]
     tt = T["term"]
+    if not T["stmts"] and tt and tt["k"] == "switch" and tt.get("discr_ty") == "bool" and tt["discr"].get("k") in ("move", "copy") \
+            and tt["discr"]["place"]["l"] == dest["l"] and not tt["discr"]["place"]["p"]:
+        _thread_bool(F, t, off, boff, nH, tt)
+        return
     if T["stmts"] or not tt or tt["k"] != "call" or not tt.get("fn") or not tt["fn"]["path"].endswith("Try::branch"):
         return
     a0 = tt["args"][0] if tt["args"] else None
